@@ -517,6 +517,17 @@ def leaked_handle_programs():
                "class Nd { public Nd next; public Ph p; public Qm qq; public constructor() -> Nd { this.next = null; this.p = null; this.qq = null; } }\n"
                "function main() -> void { qubit pad; Lk a0 = new Lk(); Nd tail = new Nd(); tail.p = new Ph(a0.q); tail.qq = new Qm(); a0 = null; Nd head = tail; tail = null; "
                "for (int i = 0; i < %d; i = i + 1) { Nd nn = new Nd(); nn.next = head; head = nn; } head = null; echo(measure Sa.a.q); }\n" % n, 1)
+    # (seed C03-5) the leaked handle is a whole REGISTER (qubit[]) returned by a method of a dead object, over indices that were recycled
+    # (so they are not ascending): every element still names its qubit
+    regcls = cls + "function lend() -> qubit[] { Lr b = new Lr(); x(b.r[0]); return b.r; }\nfunction work(qubit[] hs) -> void { qubit n; x(n); echo(measure hs[0]); echo(measure hs[1]); echo(measure n); }\n"
+    for pre in ("", "Lr a0 = new Lr(); a0 = null;", "Lr a0 = new Lr(); Lk a1 = new Lk(); a0 = null; a1 = null;", "Lk a1 = new Lk(); Lr a0 = new Lr(); a1 = null; a0 = null;"):
+        tag = "fresh-indices" if not pre else "recycled-%s" % {28: "register", 57: "register-then-object" if pre.startswith("Lr") else "object-then-register"}[len(pre)]
+        # ('qubit[] hs = lend();' is not allowed - a register cannot be initialised - so the lent register lives as a parameter)
+        yield ("escape:leak-register-handle-%s:callee:x-via-leaked-handle" % tag, regcls + "function main() -> void { qubit pad; %s work(lend()); }\n" % pre, -1)
+        for fn, (fsrc, handles) in fresh.items():
+            probes = " ".join("echo(measure %s);" % hnd for hnd in handles)
+            yield ("escape:leak-register-handle-%s:%s:x-via-leaked-handle" % (tag, fn),
+                   regcls + "function use(qubit[] hs) -> void { %s x(hs[1]); %s }\nfunction main() -> void { qubit pad; %s use(lend()); }\n" % (fsrc, probes, pre), len(handles))
     # the handle is a field of the object whose destructor is running; the owner dies inside that destructor
     for fn, (fsrc, handles) in fresh.items():
         probes = " ".join("echo(measure %s);" % hnd for hnd in handles)
@@ -536,6 +547,10 @@ def _escape_one(item):
     if st != "ok":
         return name, src, "unexpected status %s: %s" % (st, r.rec.get("msg"))
     lines = [l for l in r.rec.get("stdout", "").split("\n") if l]
+    if nlive == -1:
+        if lines != ["1", "0", "1"]:
+            return name, src, "a lent register must keep its state and stay apart from a qubit declared later: expected 1, 0, 1 (lent[0] flipped by its owner, lent[1] untouched, the new qubit flipped), got %s (operations performed: %s)" % (lines, r.rec.get("ops"))
+        return name, src, None
     if lines != ["0"] * nlive:
         return name, src, "freshly declared qubits that no gate was applied to read %s instead of all 0: an operation through the reference kept by a destroyed object landed on a live declaration's qubit (operations performed: %s)" % (lines, r.rec.get("ops"))
     return name, src, None
